@@ -61,6 +61,7 @@ func C20(ctx *core.Ctx, r *core.Report) {
 	c20LazyCache(ctx, r)
 	c20ConstructorsFresh(ctx, r)
 	c20SharedContainers(ctx, r, reachAll, inScope)
+	c20GlobalsHoldNoMutableObjects(ctx, r)
 }
 
 // c20SharedContainers: a package-level variable handed by address to code
@@ -702,3 +703,140 @@ func c20ConstructorsFresh(ctx *core.Ctx, r *core.Report) {
 }
 
 var c20FreshTriage = map[string]string{}
+
+// c20GlobalsHoldNoMutableObjects: a package-level variable of the library that
+// holds an object whose own methods write to it (a feature set whose Initialize
+// fills its maps, a builder, a cache) is one object shared by every load and
+// every request of the process. The taint rule above follows a global's value
+// through calls and returns, not through struct fields of per-load objects, so
+// this rule looks at the variable itself: the concrete type it is initialised
+// with must not be a repository struct with a method that stores to its
+// receiver (or updates a map / appends to a slice held in it).
+func c20GlobalsHoldNoMutableObjects(ctx *core.Ctx, r *core.Report) {
+	// methods that write to their receiver, per named type
+	mutators := map[*types.Named][]string{}
+	for _, f := range ctx.RepoFuncs() {
+		rv := f.Signature.Recv()
+		if rv == nil || len(f.Params) == 0 {
+			continue
+		}
+		n := core.NamedOf(rv.Type())
+		if n == nil {
+			continue
+		}
+		if _, isPtr := rv.Type().Underlying().(*types.Pointer); !isPtr {
+			continue
+		}
+		recv := f.Params[0]
+		writes := false
+		core.Instrs(f, func(_ *ssa.BasicBlock, in ssa.Instruction) {
+			switch x := in.(type) {
+			case *ssa.Store:
+				if fa, ok := x.Addr.(*ssa.FieldAddr); ok && fa.X == ssa.Value(recv) {
+					writes = true
+				}
+			case *ssa.MapUpdate:
+				if _, _, base, ok := mapFieldOf(x.Map); ok && base == ssa.Value(recv) {
+					writes = true
+				}
+			}
+		})
+		if writes {
+			mutators[n] = append(mutators[n], f.Name())
+		}
+	}
+	concrete := func(v ssa.Value) []types.Type {
+		var out []types.Type
+		seen := map[ssa.Value]bool{}
+		var walk func(v ssa.Value, d int)
+		walk = func(v ssa.Value, d int) {
+			if v == nil || seen[v] || d > 4 {
+				return
+			}
+			seen[v] = true
+			switch x := v.(type) {
+			case *ssa.MakeInterface:
+				walk(x.X, d)
+			case *ssa.ChangeInterface:
+				walk(x.X, d)
+			case *ssa.Alloc:
+				out = append(out, x.Type())
+			case *ssa.Phi:
+				for _, e := range x.Edges {
+					walk(e, d)
+				}
+			case *ssa.Call:
+				if cal := x.Common().StaticCallee(); cal != nil && len(cal.Blocks) > 0 {
+					for _, ret := range core.Returns(cal) {
+						ops := core.RetOperands(ret)
+						if len(ops) > 0 {
+							walk(ops[0], d+1)
+						}
+					}
+					return
+				}
+				out = append(out, x.Type())
+			default:
+				out = append(out, v.Type())
+			}
+		}
+		walk(v, 0)
+		return out
+	}
+	n := 0
+	for _, p := range ctx.Pkgs {
+		path := p.Types.Path()
+		if !core.InRepo(path) || path == core.Full("patch/xml") || path == core.Full("testdata") || strings.HasPrefix(path, core.Full("cmd")) {
+			continue
+		}
+		sp := ctx.Prog.Package(p.Types)
+		if sp == nil {
+			continue
+		}
+		initFn := sp.Func("init")
+		if initFn == nil {
+			continue
+		}
+		core.Instrs(initFn, func(_ *ssa.BasicBlock, in ssa.Instruction) {
+			st, ok := in.(*ssa.Store)
+			if !ok {
+				return
+			}
+			g, ok := st.Addr.(*ssa.Global)
+			if !ok || g.Pkg != sp {
+				return
+			}
+			n++
+			for _, t := range concrete(st.Val) {
+				named := core.NamedOf(t)
+				if named == nil || named.Obj().Pkg() == nil || !core.InRepo(named.Obj().Pkg().Path()) {
+					continue
+				}
+				if _, isPtr := t.Underlying().(*types.Pointer); !isPtr {
+					continue
+				}
+				ms := mutators[named]
+				if len(ms) == 0 {
+					continue
+				}
+				sort.Strings(ms)
+				key := core.Short(path) + "." + g.Name()
+				if reason, ok := c20MutableGlobalOK[key]; ok {
+					r.Ob("globals-hold-no-mutable-objects", key, ctx.Pos(g.Pos()), true, "exempt: "+reason)
+					continue
+				}
+				r.Ob("globals-hold-no-mutable-objects", key, ctx.Pos(g.Pos()), false,
+					fmt.Sprintf("package-level variable %s holds a *%s, whose own methods (%s) write to it: every load and every request of the process shares and rewrites this one object — unsynchronised writes under concurrent use, and state left by one load seen by the next", key, named.Obj().Name(), strings.Join(ms, ", ")))
+			}
+		})
+	}
+	r.Count("instances:globals-hold-no-mutable-objects(initialised globals examined)", n)
+	if n < 20 {
+		r.Fatalf("only %d initialised package-level variables found in the library packages", n)
+	}
+}
+
+// package-level variables that hold an object with mutating methods and are safe, with the reason.
+var c20MutableGlobalOK = map[string]string{
+	"meta.anyType": "the shared type of anyxml/anydata nodes is complete at package init (rule anytype-complete) and no setter of *Type is ever reached with it (rule global-write follows the variable's value into every call)",
+}
